@@ -7,7 +7,7 @@ import UF.Model.HostRule
   read declaratively: cut the line at the first '#', take the blank-separated non-empty tokens;
   one token = a bare domain name (address 0.0.0.0), several = an address followed by the names.
 -/
-namespace UF
+namespace UF.H
 open Bytes
 
 /-- The non-empty tokens of `s` separated by runs of blanks (space or tab). -/
@@ -51,9 +51,9 @@ def hostLineCarveOut (line : Bytes) : Bool :=
      Facts.H.cosmeticMarkers.any (fun m => hasPrefix (line.drop i) m)
    | none => false)
 
-end UF
+end UF.H
 
-namespace UF
+namespace UF.H
 open Bytes
 
 /-! ### The line grammar of the property, as text builders and side conditions -/
@@ -84,4 +84,4 @@ def hostLineBare (name trail cmt : Bytes) : Bytes := name ++ trail ++ cmt
 def goodPairs (wn : List (Bytes × Bytes)) : Bool :=
   wn.all fun p => isBlankRun p.1 && isHostToken p.2
 
-end UF
+end UF.H
